@@ -27,7 +27,7 @@ def core_skips(repo, res):
     from vlib import rules_skips as SK, tables
 
     n = SK.skips_rule(repo, res, tables.load("skips")["row"], only=C03_CORES)
-    res.floor("SKIPS", n, 13)
+    res.floor("SKIPS", n, 9)
 
 
 RAW_CTORS = ("DFA::from_regex", "DFA::from_regex_raw", "DFA::from_regex_lenient", "dfa_from_regex")
